@@ -313,6 +313,16 @@ let parse_item (s:string) : item =
   | ["m"; p; arr; vals; rd] -> Msg ({ l_path = bytes_of_hex p; l_array = (arr = "1"); l_vals = parse_value vals }, z_of_string rd)
   | _ -> failwith "item"
 
+(* the output of one judged save: the state sa saved, the file loaded into a fresh instance st0 *)
+let save_record (tree:string) (a:port list) (ap:z list -> pmeta option) (st0:value list) (sa:value list) (mo:bool) : string =
+  let ls = save_lines a sa in
+  let f = { f_h1 = Some (z_of_int 1); f_h2 = Some (chars_of_string "app", z_of_int 1); f_items = items_of_lines ls } in
+  match load_file ap fuel a (chars_of_string "app") f st0 with
+  | None -> "NOFUEL"
+  | Some (r, sb) ->
+    Printf.sprintf "%s%shdr=1 lines=%s ret=%s A=%s B=%s fresh=%s body=%s cls=%s cond=%s" (decl_mark a ap) (tree_mark tree a ap sa) (show_lines ls) (z_to_string r)
+      (dump a sa) (dump a sb) (show_lines (save_lines a st0)) (body_text ls) (cls_text ls) (cond_text a ap sa ^ (if mo then ",mo1" else ",mo0"))
+
 let () = each_line (fun line ->
   try
     match String.split_on_char ' ' line with
@@ -321,13 +331,20 @@ let () = each_line (fun line ->
       let ap = parse_apro_tree tree in
       let st0 = initial a in
       let sa = run_ops a mops st0 in
-      let ls = save_lines a sa in
-      let f = { f_h1 = Some (z_of_int 1); f_h2 = Some (chars_of_string "app", z_of_int 1); f_items = items_of_lines ls } in
-      (match load_file ap fuel a (chars_of_string "app") f st0 with
-       | None -> print_endline "NOFUEL"
-       | Some (r, sb) ->
-         Printf.printf "%s%shdr=1 lines=%s ret=%s A=%s B=%s fresh=%s body=%s cls=%s cond=%s\n" (decl_mark a ap) (tree_mark tree a ap sa) (show_lines ls) (z_to_string r)
-           (dump a sa) (dump a sb) (show_lines (save_lines a st0)) (body_text ls) (cls_text ls) (cond_text a ap sa ^ (if mops_ok a mops then ",mo1" else ",mo0")))
+      print_endline (save_record tree a ap st0 sa (mops_ok a mops))
+    | "hist" :: tree :: flat :: _ :: _ :: mops :: _ ->
+      (* one instance, several saves: the model is a function of the state, so every segment's
+         messages go on from the state the previous segment left and the record of `save` is
+         printed for the state at that moment (the file is loaded into a fresh instance) *)
+      let a = parse_app flat in
+      let ap = parse_apro_tree tree in
+      let st0 = initial a in
+      let (_, recs) = List.fold_left (fun (st, acc) seg ->
+          let st' = run_ops a seg st in
+          let ls = save_lines a st' in
+          (st', (save_record tree a ap st0 st' (mops_ok a seg) ^ " cv=" ^ show_lines ls ^ " cv2=1 dv=-") :: acc))
+          (st0, []) (String.split_on_char '!' mops) in
+      print_endline (String.concat " ## " (List.rev recs))
     | "perm" :: tree :: flat :: _ :: groups :: _ :: mops :: _ ->
       let a = parse_app flat in
       let ap = parse_apro_tree tree in
